@@ -2145,6 +2145,12 @@ impl<'a, E: quiver_core::effects::Effect> Compiler<'a, E> {
                 if let Some(d) = &mut dispatch {
                     d.valid = false;
                 }
+                // The condition may have stored locals before it reached the nil (`x = 1, []`):
+                // drop them, as the next branch numbers its locals from the parameter again.
+                if self.local_count > param_local + 1 {
+                    self.codegen
+                        .add_instruction(Instruction::Reset(param_local + 1));
+                }
                 continue;
             }
 
@@ -2287,10 +2293,7 @@ impl<'a, E: quiver_core::effects::Effect> Compiler<'a, E> {
         self.codegen
             .add_instruction(Instruction::Reset(locals_before));
 
-        // Emit cleanup blocks for branches that need to reset locals before jumping
-        // Track jumps that need to be patched to the final end address
-        let mut final_end_jumps = Vec::new();
-
+        // Emit cleanup blocks for branches that need to reset locals before jumping.
         // Check if we need cleanup blocks (any branch needs cleanup)
         let has_cleanup_blocks = next_branch_jumps
             .iter()
@@ -2305,11 +2308,14 @@ impl<'a, E: quiver_core::effects::Effect> Compiler<'a, E> {
 
         // Process each branch jump
         for (jump_addr, next_branch_idx, needs_cleanup) in next_branch_jumps {
-            // Determine target: next branch start, on_no_match handler, or final end
+            // Determine target: next branch start, or — when the last branch fails — the
+            // on_no_match handler or the end of the block. The block ends by clearing its
+            // parameter, also when no branch matched: whatever follows numbers its locals from
+            // `locals_before` again.
             let target_addr = if next_branch_idx < branch_starts.len() {
-                Some(branch_starts[next_branch_idx])
+                branch_starts[next_branch_idx]
             } else {
-                on_no_match
+                on_no_match.unwrap_or(param_clear_addr)
             };
 
             if needs_cleanup {
@@ -2317,33 +2323,19 @@ impl<'a, E: quiver_core::effects::Effect> Compiler<'a, E> {
                 let cleanup_addr = self.codegen.instructions.len();
                 self.codegen
                     .add_instruction(Instruction::Reset(param_local + 1));
-
-                if let Some(addr) = target_addr {
-                    self.codegen.emit_jump_to_addr(addr);
-                } else {
-                    // Target is final end - will patch later
-                    final_end_jumps.push(self.codegen.emit_jump_placeholder());
-                }
+                self.codegen.emit_jump_to_addr(target_addr);
 
                 // Patch original jump to point to cleanup block
                 self.codegen.patch_jump_to_addr(jump_addr, cleanup_addr);
             } else {
                 // No cleanup needed - patch directly to target
-                if let Some(addr) = target_addr {
-                    self.codegen.patch_jump_to_addr(jump_addr, addr);
-                } else {
-                    // Target is final end - will patch later
-                    final_end_jumps.push(jump_addr);
-                }
+                self.codegen.patch_jump_to_addr(jump_addr, target_addr);
             }
         }
 
-        // Patch the skip-cleanup jump and all final-end jumps to current position
+        // Patch the skip-cleanup jump to current position
         if let Some(skip_jump) = skip_cleanup_jump {
             self.codegen.patch_jump_to_here(skip_jump);
-        }
-        for jump_addr in final_end_jumps {
-            self.codegen.patch_jump_to_here(jump_addr);
         }
 
         // Patch end_jumps to go to param clear
